@@ -7,107 +7,107 @@ BASELINE = ("cd /repo && cargo nextest run --workspace --no-fail-fast --tool-con
 
 CHECKS = {
  "C11": dict(
-    text="TLC exhaustively checks spec/CVec.tla (ideal Vec semantics with element identities, drop ledger and capacity rule) on a bounded alphabet; every behaviour of the generator config is replayed on the real cglue::vec::CVec for 4 element types with per-step comparison of contents, drop counts, call outcome, allocator ledger and stored-function call counts; seeded random driver traces of the real CVec are validated event by event by TLC against the same actions (Trace_CVec).",
+    text="TLC exhaustively checks spec/CVec.tla (ideal Vec semantics with element identities, drop ledger and capacity rule) on a bounded alphabet; every behaviour of the generator config is replayed on the real cglue::vec::CVec for 4 element types with per-step comparison of contents, drop counts, call outcome, allocator ledger and stored-function call counts; seeded random driver traces of the real CVec are validated event by event by TLC against the same actions (Trace_CVec). Later rounds: CVec::default for empty vectors without a buffer; simulated behaviours as independent traces.",
     note="Trusted: TLC, the adapter's projection (rt/src/vecad.rs), the ledger allocator. Capacities are never compared. Bounds in evidence.tlc_runs; memory-safety symptoms only as far as counters/ledger/guards expose them.",
     technique="TLA+ spec + TLC exhaustive model check; TLC-generated behaviours replayed on the implementation; implementation traces validated against the spec by TLC",
     design="DESIGN.md §5 C11"),
 }
 
 CHECKS["C10"] = dict(
-    text="TLC exhaustively checks spec/CArc.tla (pool of CArc/CArcSome/opaque/Option/std-Arc handles over counted allocations, per-thread slot ownership, stored clone/drop function call counts) for all interleavings of 2 threads; every generated behaviour is replayed on real cglue::arc handles with each operation executed on the OS thread the spec names; -simulate behaviours of depth 40; random driver traces validated by TLC (Trace_CArc); free-running mode: 3 OS threads operate concurrently on their own handles of shared allocations, TLC validates a completion-ordered linearisation and compares the whole observable state after the threads have joined.",
+    text="TLC exhaustively checks spec/CArc.tla (pool of CArc/CArcSome/opaque/Option/std-Arc handles over counted allocations, per-thread slot ownership, stored clone/drop function call counts) for all interleavings of 2 threads; every generated behaviour is replayed on real cglue::arc handles with each operation executed on the OS thread the spec names; -simulate behaviours of depth 40; random driver traces validated by TLC (Trace_CArc); free-running mode: 3 OS threads operate concurrently on their own handles of shared allocations, TLC validates a completion-ordered linearisation and compares the whole observable state after the threads have joined. Later rounds: reference transposes (From<&CArc> / From<&mut CArc>), into_arc, simulated behaviours as independent traces.",
     note="Trusted: TLC, rt/src/arcad.rs projection (Arc::strong_count of a retained Arc, destructor counters, interposed clone_fn/drop_fn via the C layout). Interleaving granularity is one public operation.",
     technique="TLA+ spec + TLC exhaustive model check over thread interleavings; behaviour replay on real threads; trace validation by TLC",
     design="DESIGN.md §5 C10")
 CHECKS["C19"] = dict(
-    text="TLC exhaustively checks spec/Waker.tla (original waker count/wakes, shared records, foreign waker slots owned by threads, polls) and shows that the pre-fix deviation violates ReleasedAtMostOnce; every generated behaviour is replayed through opaque Future, Stream and Sink objects whose poll executes the script step by step so other threads' operations interleave with the poll; simulate behaviours of depth 60; random traces validated by TLC.",
+    text="TLC exhaustively checks spec/Waker.tla (original waker count/wakes, shared records, foreign waker slots owned by threads, polls) and shows that the pre-fix deviation violates ReleasedAtMostOnce; every generated behaviour is replayed through opaque Future, Stream and Sink objects whose poll executes the script step by step so other threads' operations interleave with the poll; simulate behaviours of depth 60; random traces validated by TLC. Later rounds: two caller wakers (successive polls come with different wakers; a retained foreign waker must wake the one it was cloned from) and Waker!seen: the reference count the original observes at the instant it is woken (a wake must run while the clone it goes through is still held).",
     note="Trusted: TLC, rt/src/wakerad.rs (counting Arc waker with 64 spare references so a double release is a count, Waker::data() for record identity). Found and fixed F1 (see known_findings.json).",
     technique="TLA+ spec + TLC exhaustive model check (ideal and deviation configs); behaviour replay through opaque Future/Stream/Sink; trace validation by TLC",
     design="DESIGN.md §5 C19, §6 F1")
 
 CHECKS["C14"] = dict(
-    text="spec/CString.tla states the buffer discipline (prefix before first NUL + exactly one NUL, one heap block of exactly that size per string, content equality); TLC checks WellFormed/OneBufferEach in every state while enumerating the complete bounded input space (all words of <=3 (thorough 4) characters over {NUL,'a',U+E9,U+20AC,U+10348}) x the three constructors and all operation sequences over representative inputs; every behaviour is replayed on the real ReprCString/ReprCStr with the ledger allocator reporting the block size behind the pointer, leaks, mismatched frees and guard damage; random traces validated by TLC.",
+    text="spec/CString.tla states the buffer discipline (prefix before first NUL + exactly one NUL, one heap block of exactly that size per string, content equality); TLC checks WellFormed/OneBufferEach in every state while enumerating the complete bounded input space (all words of <=3 (thorough 4) characters over {NUL,'a',U+E9,U+20AC,U+10348}) x the three constructors and all operation sequences over representative inputs; every behaviour is replayed on the real ReprCString/ReprCStr with the ledger allocator reporting the block size behind the pointer, leaks, mismatched frees and guard damage; random traces validated by TLC. Later rounds: ReprCStr equality/hash for equal texts and inequality with a proper extension.",
     note="Trusted: TLC, rt/src/cstrad.rs, the ledger allocator (block sizes, guard bytes). Found and fixed F3 (known_findings.json).",
     technique="TLA+ spec; TLC enumeration of the bounded input space with invariants; behaviour replay against the implementation with allocator ledger; trace validation by TLC",
     design="DESIGN.md §5 C14, §6 F3")
 
 CHECKS["C12"] = dict(
-    text="spec/Views.tla states that every conversion between Rust slices and CSliceRef/CSliceMut is the identity on (address, length, contents), that writes through mutable views land in the buffer, and that Option/Result/tuple <-> COption/CResult/CTupN keep variant and payload with payloads destroyed exactly once; spec/Utf8.tla is the RFC 3629 byte-class recogniser. TLC enumerates all chains of the stated depth and all byte strings of length <=4 over a 19-byte boundary alphabet (137 561 strings) with the predicted verdict; each is executed on the real types (4 element types incl. ZST and a 3-byte struct) and compared step by step.",
+    text="spec/Views.tla states that every conversion between Rust slices and CSliceRef/CSliceMut is the identity on (address, length, contents), that writes through mutable views land in the buffer, and that Option/Result/tuple <-> COption/CResult/CTupN keep variant and payload with payloads destroyed exactly once; spec/Utf8.tla is the RFC 3629 byte-class recogniser. TLC enumerates all chains of the stated depth and all byte strings of length <=4 over a 19-byte boundary alphabet (137 561 strings) with the predicted verdict; each is executed on the real types (4 element types incl. ZST and a 3-byte struct) and compared step by step. Later rounds: &mut str <-> CSliceMut<u8> (From, into_mut_str, into_str, TryFrom) for every valid string of the UTF-8 enumeration; CResult::ok, COption/CResult::as_mut assignment, COption::default, unwrap paths (Views!ResOk, ReplaceMut, DefaultOpt).",
     note="Trusted: TLC, rt/src/viewsad.rs. Spec->impl direction only (pure conversions; no implementation traces).",
     technique="TLA+ specs; TLC enumeration of the bounded input/chain space with predicted observations; replay on the implementation",
     design="DESIGN.md §5 C12")
 CHECKS["C13"] = dict(
-    text="spec/IntRes.tla models encoder/decoder with an explicit caller-owned output slot; TLC checks ZeroIffOk, SlotDiscipline, ReadOnlyOnZero, OsRoundTrip and NoErrorEncodesToZero on every script over the representative i32 code set and all shipped error flavours; every script is replayed on cglue::result (slot pre-filled with a byte pattern so an untouched slot is observable, droppable success payloads); random traces over random i32 codes are validated by TLC; thorough sweeps all 2^32 OS codes natively against the closed form transcribed from the spec. Trait-level int_result methods are exercised by the grammar harness when present in evidence.trait_level.",
+    text="spec/IntRes.tla models encoder/decoder with an explicit caller-owned output slot; TLC checks ZeroIffOk, SlotDiscipline, ReadOnlyOnZero, OsRoundTrip and NoErrorEncodesToZero on every script over the representative i32 code set and all shipped error flavours; every script is replayed on cglue::result (slot pre-filled with a byte pattern so an untouched slot is observable, droppable success payloads); random traces over random i32 codes are validated by TLC; thorough sweeps all 2^32 OS codes natively against the closed form transcribed from the spec. Trait-level int_result methods are exercised by the grammar harness when present in evidence.trait_level. Later rounds (program space, extras): int_result at trait and method level, #[no_int_result], #[int_result(Alias)], unit and payload results, positive and negative OS codes, an unmarked io::Error result after a marked method (must not be int-coded); every argument shape on an int_result method.",
     note="Trusted: TLC, rt/src/intresad.rs. TLC integers are 32-bit, hence the native sweep for the full code space.",
     technique="TLA+ spec with action properties checked by TLC; script replay on the implementation; trace validation by TLC",
     design="DESIGN.md §5 C13")
 CHECKS["C15"] = dict(
-    text="TLC exhaustively checks spec/Feed.tla (source iterator, CIterator wrapper, closure/Vec/Extend sinks, stop positions, feed_into/feed_into_mut/Extend, item identities with destructor counts) and generates every behaviour of the stated depth plus long simulated ones; each is replayed on the real OpaqueCallback/FeedCallback/FromExtend/CIterator with per-step comparison of sink contents, invocation counts, reported counts, remaining source items and drop counts; random traces validated by TLC.",
+    text="TLC exhaustively checks spec/Feed.tla (source iterator, CIterator wrapper, closure/Vec/Extend sinks, stop positions, feed_into/feed_into_mut/Extend, item identities with destructor counts) and generates every behaviour of the stated depth plus long simulated ones; each is replayed on the real OpaqueCallback/FeedCallback/FromExtend/CIterator with per-step comparison of sink contents, invocation counts, reported counts, remaining source items and drop counts; random traces validated by TLC. Later rounds: sources lent by reference (FeedRef: what was not offered must still be in the source), C-style callbacks (Callback::new + extern \"C\" fn), as_citer.",
     note="Trusted: TLC, rt/src/feedad.rs, ledger allocator.",
     technique="TLA+ spec + TLC exhaustive model check; behaviour replay; trace validation by TLC",
     design="DESIGN.md §5 C15")
 
 _OBJ_NOTE = "Trusted: TLC, rt/src/objad.rs (projection through the objects' own id methods, payload registers read from live payload memory, Weak::strong_count for contexts, ledger allocator). Reference trait family harness/objfam; bounds in evidence.tlc_runs."
 CHECKS["C06"] = dict(
-    text="TLC exhaustively checks spec/CGlueObj.tla (payloads with identity and drop counters, handles of kind box/mut/ref/arcsome viewed as single-trait object, group, cast or final variant, contexts, six-step by-value call) for DropAtMostOnce, NoDangling, OwnedExactlyOnce, BorrowNeverFrees; every behaviour of depth 2 over the full alphabet and thousands of simulated behaviours of depth 12 are replayed on real cglue objects built with trait_obj!/group_obj!/cast!/into!/as_ref!/as_mut!/upcast/Clone/wrapped children/by-value calls, comparing per step payload states, drop counts, handles and at quiescence the allocator ledger; the same executions are logged and validated by TLC (Trace_CGlueObj) with every invariant evaluated per state.",
+    text="TLC exhaustively checks spec/CGlueObj.tla (payloads with identity and drop counters, handles of kind box/mut/ref/arcsome viewed as single-trait object, group, cast or final variant, contexts, six-step by-value call) for DropAtMostOnce, NoDangling, OwnedExactlyOnce, BorrowNeverFrees; every behaviour of depth 2 over the full alphabet and thousands of simulated behaviours of depth 12 are replayed on real cglue objects built with trait_obj!/group_obj!/cast!/into!/as_ref!/as_mut!/upcast/Clone/wrapped children/by-value calls, comparing per step payload states, drop counts, handles and at quiescence the allocator ledger; the same executions are logged and validated by TLC (Trace_CGlueObj) with every invariant evaluated per state. Later rounds: typed CBox/CSliceBox lifecycle (spec/Boxes.tla, incl. zero-sized payloads and empty boxed slices), ob_try (see C07).",
     note=_OBJ_NOTE, technique="TLA+ spec + TLC exhaustive model check; behaviour replay on real objects; trace validation by TLC", design="DESIGN.md §5 C06")
 CHECKS["C07"] = dict(
-    text="As C06 on the same specification, for CtxCountExact, CtxReleasedIffUnreferenced, CtxNotEarly, CtxAliveInCall and NoCtxLeak, with a deviation config that must (and does) violate NoCtxLeak. Context counts are read after every step; by-value calls on objects that hold the last context reference are run through an interposed vtable slot so that callee entry/exit, body, payload destructor and context destructor become trace events, and TLC accepts a context-destructor event only after the callee has returned. The borrowed-child context leak is reported as known finding F2.",
+    text="As C06 on the same specification, for CtxCountExact, CtxReleasedIffUnreferenced, CtxNotEarly, CtxAliveInCall and NoCtxLeak, with a deviation config that must (and does) violate NoCtxLeak. Context counts are read after every step; by-value calls on objects that hold the last context reference are run through an interposed vtable slot so that callee entry/exit, body, payload destructor and context destructor become trace events, and TLC accepts a context-destructor event only after the callee has returned. The borrowed-child context leak is reported as known finding F2. Later rounds: a fallible by-value call returning Result<wrapped child, ()> (Ob::ob_try: ob_try_ok / ob_try_err) in the object family and in CGlueObj.tla.",
     note=_OBJ_NOTE + " Known finding F2 listed in known_findings.json.", technique="TLA+ spec + TLC model check (ideal + deviation); behaviour replay; fine-grained trace validation by TLC with an interposed vtable", design="DESIGN.md §5 C07, §6 F2")
 CHECKS["C01"] = dict(
-    text="Call histories: spec/CGlueObj.tla gives every method of the reference family its own non-idempotent effect modulo 61; all behaviours of depth 2 and simulated behaviours of depth 12 (objects, groups, every successful cast/final view, clones, children, borrowed and boxed and Arc-held instances, with and without context) are replayed on the real objects and the returned value, the payload's register (read from its memory) and the instance reached (read through the object) are compared after every call; traces validated by TLC. Program space (all trait shapes of the grammar) is covered when evidence.program_space reports it.",
+    text="Call histories: spec/CGlueObj.tla gives every method of the reference family its own non-idempotent effect modulo 61; all behaviours of depth 2 and simulated behaviours of depth 12 (objects, groups, every successful cast/final view, clones, children, borrowed and boxed and Arc-held instances, with and without context) are replayed on the real objects and the returned value, the payload's register (read from its memory) and the instance reached (read through the object) are compared after every call; traces validated by TLC. Program space (all trait shapes of the grammar) is covered when evidence.program_space reports it. Later rounds: see C02 for the widened program space (forwarding and group containers, new shapes); extras: default bodies behind `where Self: Sized`, int_result family; ob_try in the object family. Simulated behaviours are independent traces (Gen_* fin step, four seeds).",
     note=_OBJ_NOTE, technique="TLA+ spec + TLC; behaviour replay; trace validation by TLC", design="DESIGN.md §5 C01")
 CHECKS["C08"] = dict(
     text="Group casts on spec/CGlueObj.tla: CastIff and SameInstance are checked by TLC; check/as_ref/as_mut/cast/into/upcast for 8 requested sets over a group with 5 optional traits and 6 implementing types (distinct enabled sets) on Box/Mut/Ref containers are replayed on the real macros with verdict, dispatch target and follow-up calls compared; failing cast/into must drop the container exactly once. The exhaustive n<=4 matrix is covered when evidence.cast_matrix reports it.",
     note=_OBJ_NOTE, technique="TLA+ spec + TLC; behaviour replay; trace validation by TLC", design="DESIGN.md §5 C08")
 
 CHECKS["C09"] = dict(
-    text="spec/SendSync.tla states Rust's auto-trait rules for every typed instance handle and the bounds the library actually writes for each opaque conversion; TLC enumerates the complete finite matrix ({instance, Fwd, object, group} x {&T, &mut T, CBox, CSliceBox, CArc, CArcSome} x 4 payload classes x {Send, Sync}) with both predictions. A probe crate built against /repo evaluates the real Send/Sync/Opaquable facts of every cell in one build; the verdict per cell is the property's own predicate on the observed facts (opaque has the marker and the instance handle lacks it); disagreement with the spec's implementation rules is model drift. The 27 violating conversion cells (upstream issue #18) are listed one by one as known findings F4.",
+    text="spec/SendSync.tla states Rust's auto-trait rules for every typed instance handle and the bounds the library actually writes for each opaque conversion; TLC enumerates the complete finite matrix ({instance, Fwd, object, group} x {&T, &mut T, CBox, CSliceBox, CArc, CArcSome} x 4 payload classes x {Send, Sync}) with both predictions. A probe crate built against /repo evaluates the real Send/Sync/Opaquable facts of every cell in one build; the verdict per cell is the property's own predicate on the observed facts (opaque has the marker and the instance handle lacks it); disagreement with the spec's implementation rules is model drift. The 27 violating conversion cells (upstream issue #18) are listed one by one as known findings F4. Round 2/3: the same matrix also compares every TYPED smart pointer (CBox, CSliceBox, CArc, CArcSome) with Rust's rule for the std handle it is built from, and every typed object/group/Fwd with its instance handle: a wrapper that claims a marker its source lacks is a violation.",
     note="Trusted: TLC, rustc's trait solver (the executed oracle), the inherent-const probe (self-checked on u64/Rc/Cell). Level: complete enumeration of a finite matrix.",
     technique="TLA+ rule model enumerated by TLC; compiler-evaluated probe matrix compared per cell",
     design="DESIGN.md §5 C09, §6 F4")
 
 CHECKS["C02"] = dict(
-    text="spec/Shapes.tla enumerates the single-method trait grammar (5 receivers x 14 argument shapes x 10 return shapes x int_result, minus combinations Rust or the generator cannot express) with the C signature predicted for each; every definition is rendered into a trait, a logging implementor and a driver, compiled against /repo and executed directly and through every admissible container (Box, Box+Arc context, &, &mut, CArcSome) with two values per shape (empty/extreme included): the digest and address logged by the callee must equal what the caller sent, returned values/borrows must equal the direct call's, and callee writes through &mut shapes must be visible to the caller.",
+    text="spec/Shapes.tla enumerates the single-method trait grammar (5 receivers x 14 argument shapes x 10 return shapes x int_result, minus combinations Rust or the generator cannot express) with the C signature predicted for each; every definition is rendered into a trait, a logging implementor and a driver, compiled against /repo and executed directly and through every admissible container (Box, Box+Arc context, &, &mut, CArcSome) with two values per shape (empty/extreme included): the digest and address logged by the callee must equal what the caller sent, returned values/borrows must equal the direct call's, and callee writes through &mut shapes must be visible to the caller. Later rounds added: forwarding containers (CBox<Fwd<&mut T>>, CBox<Fwd<&mut object>>), group containers (the trait as optional member reached through cast!/as_ref!/as_mut!), argument shapes Option<&mut T>, &[u64], &[()] (zero-sized elements), Option<struct>, raw pointer, Option<raw pointer>; return shapes &T, &mut T, Option<struct>, Result<u64, io::Error> with negative OS codes under int_result; a result that differs while the callee's log is identical counts as altered on the way back.",
     note="Trusted: TLC (enumeration), tools/render_progs.py (renderer), rustc. Quick = pairwise slice of the grammar (129 definitions), thorough = full grammar (644).",
     technique="TLA+ grammar enumerated by TLC; each enumerated program compiled and executed against the implementation (translation of spec states into programs)",
     design="DESIGN.md §5 C02")
 CHECKS["C03"] = dict(
-    text="spec/Shapes.tla states (ASSUME AllFfiSafe) that every C type the generator is documented to produce for the grammar is C-representable and predicts each slot's signature; every enumerated definition is expanded by the real cglue-gen (linked as a library), written out as ordinary source and compiled with rustc's improper_ctypes / improper_ctypes_definitions lints on vtable fields, wrapper functions and concrete Box/ArcBox/Ref/Mut instantiations; every generated struct and every public wrapper type in cglue/src is scanned for #[repr(C)]/#[repr(transparent)]/#[repr(u8)]; vtable entries must be extern \"C\". Two non-C shapes (tuple, Rust-ABI fn pointer) are canaries that the lint is live. Signature differences from the prediction are model drift, not alarms.",
+    text="spec/Shapes.tla states (ASSUME AllFfiSafe) that every C type the generator is documented to produce for the grammar is C-representable and predicts each slot's signature; every enumerated definition is expanded by the real cglue-gen (linked as a library), written out as ordinary source and compiled with rustc's improper_ctypes / improper_ctypes_definitions lints on vtable fields, wrapper functions and concrete Box/ArcBox/Ref/Mut instantiations; every generated struct and every public wrapper type in cglue/src is scanned for #[repr(C)]/#[repr(transparent)]/#[repr(u8)]; vtable entries must be extern \"C\". Two non-C shapes (tuple, Rust-ABI fn pointer) are canaries that the lint is live. Signature differences from the prediction are model drift, not alarms. Later rounds: every argument shape also on a method that uses integer result codes (quick selection); shapes listed under C02.",
     note="Trusted: rustc's FFI lints (the final judge), syn-based scan in harness/gen. Quick = pairwise slice, thorough = full grammar.",
     technique="TLA+ grammar enumerated by TLC with predicted signatures; real generator expansion judged by the compiler's FFI lint",
     design="DESIGN.md §5 C03")
 
 CHECKS["C04"] = dict(
-    text="spec/Layout.tla defines the documented layout (vtable = methods in declaration order; group = mandatory vtables by name, optional vtables by name/alias, container {instance, context, temporaries}) and TLC checks (ASSUME OrderInvariant) that it does not depend on listing order while enumerating every listing order of every group set over a pool of traits whose declaration order is not alphabetical. The real generator expands the definitions in repeated fresh processes (identical layout tables required), the field tables are compared with the predicted order, and a compiled crate reads real trait objects and group objects as raw words: vtable word k = k-th method's function pointer, group words = per-trait vtable pointers in the predicted order (null for absent optionals) followed by the instance, and concrete vs opaque forms have identical size, alignment and bits.",
+    text="spec/Layout.tla defines the documented layout (vtable = methods in declaration order; group = mandatory vtables by name, optional vtables by name/alias, container {instance, context, temporaries}) and TLC checks (ASSUME OrderInvariant) that it does not depend on listing order while enumerating every listing order of every group set over a pool of traits whose declaration order is not alphabetical. The real generator expands the definitions in repeated fresh processes (identical layout tables required), the field tables are compared with the predicted order, and a compiled crate reads real trait objects and group objects as raw words: vtable word k = k-th method's function pointer, group words = per-trait vtable pointers in the predicted order (null for absent optionals) followed by the instance, and concrete vs opaque forms have identical size, alignment and bits. Later rounds: mixed-case trait names (byte order), attribute-bearing methods (#[vtbl_only] slots stay in declaration order, #[skip_func] methods are not exported).",
     note="Trusted: TLC, harness/gen (syn field tables), the raw-word reader. Cross-crate/plugin sides are exercised by C05.",
     technique="TLA+ layout function checked for order-invariance and enumerated by TLC; generator output and raw object words compared with the prediction",
     design="DESIGN.md §5 C04")
 
 CHECKS["C20"] = dict(
-    text="spec/LayoutCheck.tla defines the C-visible interface of a trait/group, the verdict of comparing two builds and the verdict algebra; TLC checks the algebra laws and that, over the enumerated single-edit variants (add/remove/rename/reorder a method, change an argument or return type, receiver kind, int_result, add an argument; documentation, default bodies and skip_func methods; group traits added, removed, replaced, relisted), Valid is predicted exactly for interface-preserving edits. Every variant is rendered into its own module of a crate built with the layout_checks feature and compared with cglue's compare_layouts in both directions; missing descriptions must give Unknown; VerifyLayout::and is compared with the model on all 9 pairs.",
+    text="spec/LayoutCheck.tla defines the C-visible interface of a trait/group, the verdict of comparing two builds and the verdict algebra; TLC checks the algebra laws and that, over the enumerated single-edit variants (add/remove/rename/reorder a method, change an argument or return type, receiver kind, int_result, add an argument; documentation, default bodies and skip_func methods; group traits added, removed, replaced, relisted), Valid is predicted exactly for interface-preserving edits. Every variant is rendered into its own module of a crate built with the layout_checks feature and compared with cglue's compare_layouts in both directions; missing descriptions must give Unknown; VerifyLayout::and is compared with the model on all 9 pairs. Later rounds: the base trait has four methods (ref, mut, ref/Result, by-value) and every per-method edit is applied at every position; group edits include a changed method inside a mandatory, an optional and the last optional member trait; is_valid_strict / is_valid_relaxed per verdict.",
     note="Trusted: TLC, abi_stable's layout comparison (the executed oracle), the renderer. Complete enumeration of the listed edit kinds on one base definition.",
     technique="TLA+ interface/verdict model enumerated by TLC; each (definition, edit) pair compiled and compared at run time",
     design="DESIGN.md §5 C20")
 
 CHECKS["C16"] = dict(
-    text="No new model: every behaviour TLC generates from spec/CVec.tla that a C caller can provoke and every behaviour of spec/CArc.tla is replayed with the mutations performed by a C driver (cview/cview.c, compiled with gcc -std=c99 and linked into the adapter) that knows only the published field layouts - vector push/pop/insert/remove/reserve/write/release through {data, len, capacity, drop_fn, reserve_fn} for four element types of different size and alignment, arc clone/release through {instance, clone_fn, drop_fn} - and the resulting state is projected through the Rust API and compared with the specification's expectation step by step (plus allocator ledger). Box release, slice reads/writes, the callback feed loop, iterator advance and the option/result tags are checked differentially against the corresponding Rust operation.",
+    text="No new model: every behaviour TLC generates from spec/CVec.tla that a C caller can provoke and every behaviour of spec/CArc.tla is replayed with the mutations performed by a C driver (cview/cview.c, compiled with gcc -std=c99 and linked into the adapter) that knows only the published field layouts - vector push/pop/insert/remove/reserve/write/release through {data, len, capacity, drop_fn, reserve_fn} for four element types of different size and alignment, arc clone/release through {instance, clone_fn, drop_fn} - and the resulting state is projected through the Rust API and compared with the specification's expectation step by step (plus allocator ledger). Box release, slice reads/writes, the callback feed loop, iterator advance and the option/result tags are checked differentially against the corresponding Rust operation. Later rounds: the reserve postcondition (capacity - len >= n) is asserted through the C layout; vectors of heap-owning and zero-sized droppable elements are released from C (drop ledger of CVec.tla); option/result with payloads narrower than the tag (sizes, every byte of the tag, values built by C).",
     note="Trusted: TLC (behaviour generation), gcc, the hand-written C declarations (from the property statement). Thorough adds the release build.",
     technique="TLC-generated behaviours of the runtime specs replayed through a C driver operating the published layouts; differential C-vs-Rust scripts",
     design="DESIGN.md §5 C16")
 
 CHECKS["C05"] = dict(
-    text="No separate model: the specifications already checked by TLC for C06/C07/C11 (spec/CGlueObj.tla, spec/CVec.tla) are bound to a two-module configuration. A plugin (cdylib with its own ledger allocator) and the host adapter are built by separate cargo invocations from a matrix of installed toolchains x debug/release x -Zrandomize-layout seeds; every object, group, vector and arc is created inside the plugin through extern \"C\" constructors returning #[repr(C)] values, and the TLC-generated behaviours are replayed with all calls, casts, clones, by-value calls and destruction issued by the host. Besides the per-step comparison with the specification, the host's ledger must see no free of memory it did not allocate and the plugin's live-block count must return to its base (memory released by the module that allocated it).",
+    text="No separate model: the specifications already checked by TLC for C06/C07/C11 (spec/CGlueObj.tla, spec/CVec.tla) are bound to a two-module configuration. A plugin (cdylib with its own ledger allocator) and the host adapter are built by separate cargo invocations from a matrix of installed toolchains x debug/release x -Zrandomize-layout seeds; every object, group, vector and arc is created inside the plugin through extern \"C\" constructors returning #[repr(C)] values, and the TLC-generated behaviours are replayed with all calls, casts, clones, by-value calls and destruction issued by the host. Besides the per-step comparison with the specification, the host's ledger must see no free of memory it did not allocate and the plugin's live-block count must return to its base (memory released by the module that allocated it). Later rounds: vectors with capacity 0 (CVec::default) created in the plugin and first grown in the host; clones made in the host of plugin-created vectors.",
     note="Trusted: TLC, both adapters, the ledger allocators. Quick = 2 module pairs (stable-debug x nightly-release-randomized, both directions); thorough = 8 pairs over 6 build variants.",
     technique="TLC-generated behaviours of the object/vector specifications replayed across a matrix of separately compiled module pairs with tagging allocators",
     design="DESIGN.md §5 C05")
 
 CHECKS["C17"] = dict(
-    text="spec/Bindgen.tla enumerates API models (objects of three traits over Box/Mut/Ref x no/Arc context, groups with clashing function names, tool configurations incl. default container/context and function prefix, foreign declarations, context-generic structures) and defines the lifecycle of one wrapper invocation as a C or C++ caller observes it. Each selected model is rendered into a cbindgen-shaped C header, processed by the real cglue-bindgen built from /repo (fake cbindgen on PATH), compiled with a generated driver whose mock vtables and mock box/arc functions log every event, and the concatenated event log is validated by TLC (Trace_Bindgen): the wrapper of every vtable entry must reach exactly that entry of that object with &container first and its own arguments unchanged, return the entry's result, and consuming wrappers / drop helpers must clone the context before the call and release instance and context exactly once (GuardAlive invariant). Entries without a callable wrapper are violations.",
+    text="spec/Bindgen.tla enumerates API models (objects of three traits over Box/Mut/Ref x no/Arc context, groups with clashing function names, tool configurations incl. default container/context and function prefix, foreign declarations, context-generic structures) and defines the lifecycle of one wrapper invocation as a C or C++ caller observes it. Each selected model is rendered into a cbindgen-shaped C header, processed by the real cglue-bindgen built from /repo (fake cbindgen on PATH), compiled with a generated driver whose mock vtables and mock box/arc functions log every event, and the concatenated event log is validated by TLC (Trace_Bindgen): the wrapper of every vtable entry must reach exactly that entry of that object with &container first and its own arguments unchanged, return the entry's result, and consuming wrappers / drop helpers must clone the context before the call and release instance and context exactly once (GuardAlive invariant). Entries without a callable wrapper are violations. Later rounds: container-returning (Clone-like) entries, callbacks of struct and primitive elements, function-pointer arguments, same-name same-shape functions at different vtable positions; wrappers are looked up by the naming convention first and then by method name + fitting signature (the property asks for a callable wrapper, not for a name). Found and fixed F9 F10 F11 as well.",
     note="Trusted: TLC, tools/cbgen.py (synthetic headers: cbindgen is not installed), the mock callee. C and C++ generators (C++ headers by tools/cbgen_cpp.py; in C++ the destructor is the drop helper). Found and fixed F7 and F5 (known_findings.json).",
     technique="TLA+ model space enumerated by TLC; real tool run on rendered headers; mock-vtable execution traces validated by TLC",
     design="DESIGN.md §5 C17", category="model_checking")
 CHECKS["C18"] = dict(
-    text="Same model space and tool run as C17. For every selected model the processed header must be accepted by gcc and clang (-std=c99 -fsyntax-only; g++ and clang++ -std=c++11 for the C++ header of the same model), be byte-identical across repeated fresh-process runs (5 quick / 30 thorough), and still contain the declarations that do not belong to CGlue constructs (incl. decoys named like CGlue patterns) unmodified and in order; argument-splitting cases check that everything after `--` except the output path reaches cbindgen and that the processed header lands in the output path.",
+    text="Same model space and tool run as C17. For every selected model the processed header must be accepted by gcc and clang (-std=c99 -fsyntax-only; g++ and clang++ -std=c++11 for the C++ header of the same model), be byte-identical across repeated fresh-process runs (5 quick / 30 thorough), and still contain the declarations that do not belong to CGlue constructs (incl. decoys named like CGlue patterns) unmodified and in order; argument-splitting cases check that everything after `--` except the output path reaches cbindgen and that the processed header lands in the output path. Later rounds: the alphabet of C17; the full repetition count is spent on the richest + covering models. Found and fixed F8 and F11 as well.",
     note="Trusted: tools/cbgen.py (synthetic headers), gcc/clang/g++/clang++. C and C++ generators; the spec contributes the model space. Found and fixed F6 (known_findings.json).",
     technique="TLA+ model space enumerated by TLC; real tool run on rendered headers judged by C compilers, repeated-run hashing and declaration diff",
     design="DESIGN.md §5 C18", category="model_checking")
